@@ -16,7 +16,8 @@ RULE = ("(a) dual-run probe (hook): every rule is called in look-ahead mode imme
 CTX = ["- a\n@@@\nb", "a\n@@@\nb", "> q\n@@@\nb", "- a\n- b\n@@@", "1. a\n@@@", "[r]: /u\n@@@\n[r]", "h\n@@@\n===", "- a\n\n  b\n@@@", "> - a\n> @@@\n@@@", "- a\n  @@@\n@@@\n- b",
        "```\n@@@\n```\n@@@", "    @@@\n@@@", "a\n   @@@  \nb", "@@@\n@@@\n\n@@@", "- @@@", "> @@@", "-\n@@@", "- a\n@@@x\n@@@", "# h\n@@@", "<div>\n@@@\n</div>\n\n@@@", "* a\n  * b\n@@@\n  * c",
        "a\n@@@\n- b\n@@@\n> c\n@@@\n1. d\n@@@"]
-LABELS = ["[x``y`]`](u)", "[a`b](c)`", "[`a](b)`](c)", "[a [b](c) d](e)", "![a [b](c) d](e)", "[a\\]](b)", "[a &amp; b](c)", "[a <b c=\"]\"> d](e)", "[<http://a.b/]>](c)", "[*a](b)*", "[a][b]\n\n[b]: /u",
+LABELS = ["[" + "a &amp; " * 120, "[x " + "[y](u) " * 110 + "](v)", "[" + "*a* `b` " * 70 + "](u) tail *x* [y](z)", "![" + "<http://a.b> " * 105 + "](u) *x*",
+          "[a " + "\\* " * 130 + "] [t](u) *e*", "[x``y`]`](u)", "[a`b](c)`", "[`a](b)`](c)", "[a [b](c) d](e)", "![a [b](c) d](e)", "[a\\]](b)", "[a &amp; b](c)", "[a <b c=\"]\"> d](e)", "[<http://a.b/]>](c)", "[*a](b)*", "[a][b]\n\n[b]: /u",
           "[[[a]]](u)", "[a]: /u\n\n[[a]]", "[![a](b)](c)", "[a ``` b](c) ``` d", "[a\nb](c)", "`[a](b`)", "[a`](b)`"]
 
 
